@@ -249,9 +249,14 @@ class GenericContextRegistry(
         except Exception:
             # A failed activation must change nothing: drop the new contexts
             # together with their partially built cache and unit overlay.
-            key = self._active_ctx.hashable()
-            self._caches.pop(key, None)
-            self._context_units.pop(key, None)
+            try:
+                key = self._active_ctx.hashable()
+            except TypeError:
+                # unhashable keyword value: nothing can have been stored under it
+                pass
+            else:
+                self._caches.pop(key, None)
+                self._context_units.pop(key, None)
             self._active_ctx.remove_contexts(len(contexts))
             self._switch_context_cache_and_units()
             raise
